@@ -362,6 +362,9 @@ fn run_t<T: model::W>(job: &Job, seed: u64) {
     let thorough = job.b("t");
     let b = bounds(if thorough { Tier::Thorough } else { Tier::Quick });
     let long = job.params.get("long").and_then(|x| x.as_bool()).unwrap_or(false);
+    // two-operand jobs decide per pairing (binary::run): a short x short pairing is not a long case
+    model::set_long_case(long && job.kind() != "binary");
+    model::set_long_deep(long && thorough);
     if long {
         mc::count("long_family");
         match job.kind() {
@@ -377,7 +380,7 @@ fn run_t<T: model::W>(job: &Job, seed: u64) {
             let shard = (job.params["shard"].as_u64().unwrap_or(0) as usize, job.params["shards"].as_u64().unwrap_or(1) as usize);
             unary::run::<T>(job.s("group"), job.u("r"), job.u("c"), fills_of(job), shard, seed)
         }
-        "binary" if long => binary::run::<T>(job.u("r"), job.u("c"), &long::partner_shapes(job.u("r"), job.u("c"), &b.long), seed, true),
+        "binary" if long => binary::run::<T>(job.u("r"), job.u("c"), &long::partner_shapes(job.u("r"), job.u("c"), &b.long, thorough), seed, true),
         "binary" => binary::run::<T>(job.u("r"), job.u("c"), &pair_shapes(&b), seed, false),
         "vec" => {
             let shard = (job.params["shard"].as_u64().unwrap_or(0) as usize, job.params["shards"].as_u64().unwrap_or(1) as usize);
